@@ -4,7 +4,11 @@
 
 package pfcpiface
 
-import "fmt"
+import (
+	"fmt"
+	"math/rand"
+	"time"
+)
 
 // This file is compiled only with the build tag "verif". It gives the external
 // verification harness access to a few unexported pure functions and a
@@ -13,10 +17,43 @@ import "fmt"
 // VerifPoint, when set, is called at named scheduling points.
 var VerifPoint func(name string, args ...interface{})
 
+// VerifSeidSource, when set, supplies the random source of every new association (UP SEID draws).
+var VerifSeidSource func() rand.Source
+
+// VerifDdnInterval, when non-zero, replaces the notification interval of the downlink data
+// notifier (a literal 20 s at both construction sites).
+var VerifDdnInterval time.Duration
+
 func verifPoint(name string, args ...interface{}) {
+	if name == "ddn.notifier" && len(args) == 1 {
+		if n, ok := args[0].(*downlinkDataNotifier); ok && VerifDdnInterval > 0 {
+			n.notificationInterval = VerifDdnInterval
+		}
+
+		args = nil
+	}
+
+	if name == "conn.new.beforeFirst" && len(args) == 1 {
+		if c, ok := args[0].(*PFCPConn); ok {
+			if src := VerifSeidSource; src != nil {
+				c.rng = rand.New(src()) // #nosec G404
+			}
+
+			args[0] = c.RemoteAddr().String()
+		}
+	}
+
 	if f := VerifPoint; f != nil {
 		f(name, args...)
 	}
+}
+
+// VerifSetTeidCursor positions the cursor of the TEID generator (wrap-around scenarios).
+func (p *PFCPIface) VerifSetTeidCursor(offset uint32) {
+	g := p.upf.fteidGenerator
+	g.lock.Lock()
+	g.offset = offset
+	g.lock.Unlock()
 }
 
 // VerifTernaryRule mirrors portRangeTernaryRule.
